@@ -884,6 +884,7 @@ SEEDS = [
     ("fixed-51bc936-bitfield-width-sentinel", b"struct S { int : -1ull; int a; } s; int f(void) { return s.a; }\n", []),
     ("fixed-51bc936-bitfield-width-sentinel-named", b"struct S { int x : -1ull; } s;\n", []),
     # regression inputs of defects repaired by fix: commits in /repo (must stay quiet)
+    ("fixed-0429f13-swap-reassoc-clobber", b"int a[4]; long p = 2 + (long)&a[1];\n", []),
     ("fixed-4ba409c-expandfunc-uaf", b"#define f(a) a\n#define t(a) a\nt(t(f)x)\n", ["-E"]),
     ("fixed-f515711-duplicate-label", b"void f(void) { x: x: ; }\n", []),
     ("fixed-c5b7a53-bitand-pointer", b"int x[1], y = 0 & x;\n", []),
